@@ -236,7 +236,14 @@ def replay(history, counter=None):
                 ex2 = tr.executor()     # same class object, no overrides
                 table2 = {}
             k = st['k']
-            e1 = tr.executor()
+            # the expectation comes from another class object (a second translation of the same workbook) on which no
+            # executor was ever given an override: state shared through the class cannot reach it
+            if 'plain' not in table2:
+                o2 = wbk.translate_model(wb_model(wb))
+                if o2[0] != 'value':
+                    raise env.HarnessError(f'C08 workbook does not translate the second time: {o2}')
+                table2['plain'] = o2[1]
+            e1 = table2['plain'].executor()
             want = wbk.outcome(lambda: e1.get_cell(mk(wb, k, 'num')).value)
             got = wbk.outcome(lambda: ex2.get_cell(mk(wb, k, st['addr'])).value)
             if counter is not None:
